@@ -11,7 +11,10 @@ Ev == T.ev
 N == Len(Ev)
 NC == Len(T.tok)
 FinalRes == Ev[N].res
-Tok(c) == <<224, T.tok[c]>>
+\* token ids 1..3 are realised as byte strings that differ only in leading zero bytes (01, 00 01, 00 00 01): distinct
+\* tokens that a sloppy table key would confuse; the others as E0 <id>
+TokBytes(id) == CASE id = 1 -> <<1>> [] id = 2 -> <<0, 1>> [] id = 3 -> <<0, 0, 1>> [] OTHER -> <<224, id>>
+Tok(c) == TokBytes(T.tok[c])
 SetOf(q) == {q[k] : k \in 1..Len(q)}
 
 \* "every request call that returns successfully returns a response carrying its own token and the content the
